@@ -54,3 +54,11 @@ Print Assumptions C17_garbage_after_path_from_text.
 Example C17_closers : closer 41%N /\ closer 93%N /\ closer 44%N /\ closer 63%N /\ closer 39%N /\ closer 126%N /\
   fchain_path [FS (RPlain (SDot [97%N]))] ++ [41%N] = [36; 46; 97; 41]%N /\ forallb fstep_ok [FS (RPlain (SDot [97%N]))] = true.
 Proof. unfold closer. repeat split; try reflexivity; discriminate. Qed.
+
+(* The grammar the theorems speak about (Grammar.v, regenerated from jsonpath.peg on every run) is, on this tree, the grammar
+   of the pinned tree (GrammarPinned.v, a committed copy): a change of jsonpath.peg breaks this statement, and the C17 check
+   then runs every generated string through the pinned grammar as well to exhibit a string whose acceptance changed. *)
+From JP Require Import GrammarPinned GrammarPinnedEq.
+Theorem C17_grammar_is_the_pinned_one : pinned_grammar = jsonpath_grammar.
+Proof. exact pinned_is_current. Qed.
+Print Assumptions C17_grammar_is_the_pinned_one.
